@@ -89,7 +89,7 @@ def clause_text(job, ob):
     return ''
 
 
-CACHE = os.path.join(WORK, 'cache')
+CACHE = os.environ.get('YV_CACHE_DIR', os.path.join(WORK, 'cache'))
 
 
 def _cache_key(job, tier):
